@@ -212,7 +212,8 @@ def run_C02(ctx):
     rng, quick = ctx["rng"], ctx["quick"]
     ex = list(props.numbers_for(rng, 4000 if quick else 100000))
     run_values(ctx, "numbers", ex, oracle=oracles.oracle_numbers)
-    run_values(ctx, "kinds", gen.op_kind_matrix())
+    # `as` is C05's business
+    run_values(ctx, "kinds", [e for e in gen.op_kind_matrix() if " as " not in e])
     edge = ["1/0", "1/(0*i)", "5 % 0", "(1+i) % (0+0*i)", "0/0", "2.5!", "(-1)!", "i!", "0!", "1!", "20!", "170!", "⌈i⌉", "⌊1+i⌋", "⌈2.5⌉", "⌊-2.5⌋",
             "|3+4*i|", "|-7|", "√-4", "√(-4)", "√i", "(-8)^(1/3)", "2^3^2", "2^-1", "-2^2", "(-2)^2", "0^0", "i^i", "7 % 3", "-7 % 3", "7 % -3", "7.5 % 2",
             "(5+3*i) % 2", "1 - -1", "--1", "-√4", "√√16", "3!!", "-3!", "2^3!", "10 - 4 - 3", "100 / 10 / 5", "2 * 3 % 4", "1 + 2 * 3 - 4 / 5",
@@ -531,8 +532,9 @@ def run_C15(ctx):
 
 
 def run_values_text(ctx, name, exprs, prelude="x = 3\nf(x) = x\nf(0) = 1\n"):
-    P = props.proj_values(with_text=True)
-    return do_stream(ctx, name, props.expr_cases(name[0], exprs, prelude=prelude), P, monitors={"print_mismatch"})
+    # judged on the implementation alone: what was printed must denote what was computed (whatever was computed)
+    return do_stream(ctx, name, props.expr_cases(name[0], exprs, prelude=prelude), props.proj_values(with_text=True), monitors={"print_mismatch"},
+                     oracle=oracles.oracle_reader_hist, impl_only=True)
 
 
 def run_C16(ctx):
